@@ -35,6 +35,8 @@ func (m *collection) Histograms() ghistogram.Histograms {
 }
 
 // statsSegmentsLOCKED retrieves stats related to segments.
+// The gauges cover the child collections too: a batch that only touches
+// child collections is dirty until it is persisted like any other.
 func (m *collection) statsSegmentsLOCKED(rv *CollectionStats) {
 	var sssDirtyTop *SegmentStackStats
 	var sssDirtyMid *SegmentStackStats
@@ -42,19 +44,19 @@ func (m *collection) statsSegmentsLOCKED(rv *CollectionStats) {
 	var sssClean *SegmentStackStats
 
 	if m.stackDirtyTop != nil {
-		sssDirtyTop = m.stackDirtyTop.Stats()
+		sssDirtyTop = m.stackDirtyTop.statsAll()
 	}
 
 	if m.stackDirtyMid != nil {
-		sssDirtyMid = m.stackDirtyMid.Stats()
+		sssDirtyMid = m.stackDirtyMid.statsAll()
 	}
 
 	if m.stackDirtyBase != nil {
-		sssDirtyBase = m.stackDirtyBase.Stats()
+		sssDirtyBase = m.stackDirtyBase.statsAll()
 	}
 
 	if m.stackClean != nil {
-		sssClean = m.stackClean.Stats()
+		sssClean = m.stackClean.statsAll()
 	}
 
 	sssDirty := &SegmentStackStats{}
